@@ -27,7 +27,7 @@ Singles(part) ==
   ELSE {<<<<NDef(id, a, 0)>>, 0, 0>> : id \in IdsOfLen(part - 1), a \in Attrs}
 
 (* attribute-exhaustive ordered pairs over a small ID set: shared prefixes and an equal XOR fold *)
-IA == IF Thorough THEN {<<>>, <<0>>, <<0, 1>>, <<0, 0, 0, 0, 1>>, <<1, 0, 0, 0, 0>>, <<0, 1, 0, 0, 0, 1, 0>>}
+IA == IF Thorough THEN {<<>>, <<0, 1>>, <<0, 0, 0, 0, 1>>, <<1, 0, 0, 0, 0>>, <<0, 1, 0, 0, 0, 1, 0>>}
       ELSE {<<>>, <<0, 0, 0, 0, 1>>, <<1, 0, 0, 0, 0>>}
 PairsAttr(i1) == {<<<<NDef(i1, a1, 0), NDef(i2, a2, 0)>>, 0, 0>> : i2 \in IA, a1 \in Attrs, a2 \in Attrs}
 
@@ -65,8 +65,8 @@ ScanDefs(u) ==
 
 (* triples: structured (a pair of related IDs + a third related to either) and random *)
 TripleAttrs == {<<A0, A0, A0>>, <<<<<<"u", 16>>, 8>>, <<<<"u", ANY>>, 8>>, <<<<"r", ANY>>, 8>>>>}
-ThirdOf(a) == {SubSeq(a, 1, Len(a) \div 2), Mutate(a, Len(a))}
-              \cup (IF FoldPartners(a) = {} THEN {} ELSE {CHOOSE x \in FoldPartners(a) : TRUE})
+ThirdOf(a) == {SubSeq(a, 1, Len(a) \div 2)}
+              \cup (IF FoldPartners(a) = {} THEN {Mutate(a, Len(a))} ELSE {CHOOSE x \in FoldPartners(a) : TRUE})
 RelatedT(id) == {SubSeq(id, 1, k) : k \in 0..(Len(id) - 1)} \cup FoldPartners(id) \cup {id}
                 \cup (IF Len(id) < MaxLen THEN {id \o <<b>> : b \in Bits} ELSE {})
 TriplesId(len, bit) ==
